@@ -133,8 +133,16 @@ def stepReset (p : Policy) (s : St) (o : Outcome) (l : Label) : St :=
     if resetRetryCond r.1 then doRetry s l.host else hijack s (convertReasonToCode reason)
   else hijack s (convertReasonToCode reason)
 
+def isResp : Outcome → Bool
+  | .resp _ => true
+  | _ => false
+
 def step (p : Policy) (s : St) (l : Label) : St :=
-  if s.live = false then s
+  if s.live = false then
+    -- no attempt outstanding. A reset can still reach `onUpstreamReset` while the started response is being forwarded
+    -- (`processError` between the header, data and trailer phases): the regenerated guard decides whether it may retry.
+    if s.started = true ∧ isResp l.o = false ∧ resetGuard (reasonOf l.o) s.started s.hasRS = true then stepReset p s l.o l
+    else s
   else if l.o = .perTry ∧ p.tryTimeout = false then s      -- no per-try timer armed: the label cannot occur
   else
     let s := { s with trace := s.trace ++ [.outcome l.o] }
